@@ -17,8 +17,9 @@ REQUIRED_THEOREMS = ['Usid.C04.wf_implies_consistent', 'Usid.C04.model_trace_wf'
                      'Usid.C04.resume_recomputes_only_unmarked', 'Usid.C04.durable_marks',
                      'Usid.C04.durable_marks_model', 'Usid.C04.durable_marks_needs_results_flush']
 RULE = ('random (N, M, mask, batch, same-file/separate target, fresh/resumed); the clean run is traced through wrappers '
-        'around h5py file-modifying calls; then an exception is injected before EVERY event index, the file is closed '
-        '(graceful survivor) and the copy taken at the last flush is kept (kill survivor); both are checked for '
+        'around h5py file-modifying calls; then an interruption is injected before EVERY event index - once as a kill-like '
+        'stop (graceful survivor after closing the file, kill survivor = the copy taken at the last flush) and once as an '
+        'ORDINARY exception raised by that call, after which the library\'s own handlers run (exception survivor); all are checked for '
         'consistency, re-opened, resumed with another batch size and compared with the clean run; distinct = '
         '(case, crash index); thorough adds successive interruptions and real os._exit kills')
 TRUSTED = ['HDF5 write-back below flush() is not modelled: the kill survivor is "the bytes as of the last flush" (the '
@@ -89,7 +90,7 @@ def _copy(d_from, d_to, separate):
         shutil.copy(os.path.join(d_from, fn), os.path.join(d_to, fn))
 
 
-def _attempt(d, inp, batch, crash_at=None, snap_dir=None):
+def _attempt(d, inp, batch, crash_at=None, snap_dir=None, soft=False):
     """one construction + compute() in directory d; returns dict"""
     separate = inp['separate']
     src, tgt = os.path.join(d, 'src.h5'), os.path.join(d, 'tgt.h5')
@@ -102,7 +103,7 @@ def _attempt(d, inp, batch, crash_at=None, snap_dir=None):
     def on_flush(h5f):
         if snap_dir is not None:
             shutil.copy(h5f.filename, os.path.join(snap_dir, os.path.basename(h5f.filename)))
-    tr = procs.Tracer(crash_at=crash_at, on_flush=on_flush)
+    tr = procs.Tracer(crash_at=crash_at, on_flush=on_flush, soft=soft)
     out = {'crashed': False, 'error': None, 'group': None}
     f = h5py.File(src, 'r+')
     ft = h5py.File(tgt, 'r+') if separate else None
@@ -115,6 +116,8 @@ def _attempt(d, inp, batch, crash_at=None, snap_dir=None):
             grp = p.compute()
             out['group'] = grp.name
     except procs.Crash:
+        out['crashed'] = True
+    except procs.SoftFault:
         out['crashed'] = True
     except Exception as e:     # noqa
         out['error'] = '%s: %s' % (type(e).__name__, str(e)[:200])
@@ -228,6 +231,11 @@ def run_impl(inp, work):
         _copy(base, snap, sep)          # kill survivor before any flush = the files as they were
         a = _attempt(cd, inp, inp['batch'], crash_at=i, snap_dir=snap)
         rec = {'i': i, 'crashed': a['crashed'], 'error': a['error']}
+        # the same point as an ORDINARY exception raised by the file-modifying call (library handlers run)
+        xd = os.path.join(work, 'x%d' % i)
+        _copy(base, xd, sep)
+        ax = _attempt(xd, inp, inp['batch'], crash_at=i, soft=True)
+        rec['exception_raised'] = ax['crashed'] or ax['error'] is not None
         # per-batch checkpoints = maximal runs of consecutive flush events in the clean trace; the last one
         # COMPLETED before the crash point is what the durability clause refers to
         groups_f, cur = [], []
@@ -242,7 +250,7 @@ def run_impl(inp, work):
         done = [g for g in groups_f if g[-1] < i]
         last_ckpt_start = done[-1][0] if done else 0
         marks_before = sorted({e['p'] for e in _model_events(events[:last_ckpt_start], gname, sep) if e['e'] == 'm'})
-        for kind, d in (('graceful', cd), ('kill', snap)):
+        for kind, d in (('graceful', cd), ('kill', snap), ('exception', xd)):
             groups = _read_groups(d, sep)
             if '__unopenable__' in groups:
                 rec[kind] = {'unopenable': True}
@@ -278,6 +286,7 @@ def run_impl(inp, work):
         obs['crash'].append(rec)
         shutil.rmtree(cd, ignore_errors=True)
         shutil.rmtree(snap, ignore_errors=True)
+        shutil.rmtree(xd, ignore_errors=True)
     # ---- successive interruptions -------------------------------------------------------------------
     if inp['multi']:
         md = os.path.join(work, 'multi')
@@ -343,7 +352,7 @@ def oracle(inp, obs):
     for rec in obs['crash']:
         if rec['error']:
             fails.append('crash-run-error: unexpected %s at crash index %d' % (rec['error'], rec['i']))
-        for kind in ('graceful', 'kill'):
+        for kind in ('graceful', 'kill', 'exception'):
             r = rec.get(kind)
             if r is None:
                 continue
@@ -426,7 +435,9 @@ def model_compare(inp, obs, r):
     # survivors predicted by the crash model from the observed trace vs the real files
     for rec in obs['crash']:
         s = [x for x in wf['survivors'] if x['i'] == obs['prefix'][rec['i']]][0]
-        for kind, sk, rk in (('graceful', 'vs', 'vr'), ('kill', 'ds', 'dr')):
+        for kind, sk, rk in (('graceful', 'vs', 'vr'), ('kill', 'ds', 'dr'), ('exception', 'vs', 'vr')):
+            if kind == 'exception' and not rec.get('exception_raised'):
+                continue        # the library swallowed the injected error and went on: the stop-here model does not apply
             real = rec.get(kind)
             if real is None or real.get('unopenable'):
                 continue
